@@ -89,6 +89,11 @@ CutBodiesAll ==
   (* three alternatives: the cut in the middle or the last one, after an alternative that failed or answered *)
   \cup {OrG(<<l1, AndG(<<l2, l3>>), l4>>) : l1 \in {Call(q1(X)), FailG, UnifyG(X, b)}, l2 \in {CutG, Call(r1(X))}, l3 \in {CutG, FailG, Call(q1(X))}, l4 \in {Call(r1(X)), pr(X)}}
   \cup {OrG(<<l1, l2, l3>>) : l1 \in CutLitsS, l2 \in CutLitsS, l3 \in {CutG, Call(r1(X)), FailG}}
+  (* the cut in a LATER alternative of a disjunction to the right of a goal with several answers, reached only when the *)
+  (* conjunction is entered again (the earlier alternative answered first)                                              *)
+  \cup {AndG(<<l1, OrG(<<l2, AndG(<<l3, l4>>)>>)>>) : l1 \in {Call(q1(X)), Call(k1(X))}, l2 \in {pr(X), UnifyG(Y, b), Call(r1(Y))},
+                                                       l3 \in {CutG, Call(r1(X))}, l4 \in {CutG, FailG, Call(q1(X))}}
+  \cup {AndG(<<Call(q1(X)), OrG(<<UnifyG(Y, a), AndG(<<CutG, UnifyG(Y, b)>>)>>), l5>>) : l5 \in {Bip("equal", <<Y, a>>), Bip("equal", <<Y, b>>), Call(r1(X))}}
   \cup {CutG}
 CutBodies == {bd \in CutBodiesAll : HasCutG(bd) \/ (bd.g = "and" /\ \E i \in DOMAIN bd.gs : bd.gs[i] = Call(c1(X)))}
 CalledCut == <<Clause(c1(X), AndG(<<Call(q1(X)), CutG>>)), Fact(c1(c)), Clause(k1(X), Call(q1(X)))>>
@@ -229,7 +234,8 @@ ProgsDeep == PQ(DeepProg, DeepQueries)
 (* query variable names reused inside rules, all rules sharing names, var-var   *)
 (* aliasing through heads                                                       *)
 AliasClauses ==
-  { Clause(p1(Z), Call(q1(Z))), Clause(p1(Z), AndG(<<Call(q1(X)), UnifyG(Z, X)>>)),
+  { Clause(p1(Z), Call(q1(Z))), Clause(p1(X), Call(q1(X))),      \* (the same rule under two names: two clauses all the same)
+    Clause(p1(Z), AndG(<<Call(q1(X)), UnifyG(Z, X)>>)),
     Clause(Cx("e", <<X, X>>), NoGoal), Clause(Cx("e", <<X, Y>>), UnifyG(X, Y)),
     Clause(Cx("e", <<X, Y>>), AndG(<<UnifyG(X, Y), UnifyG(Y, X)>>)),
     Clause(Cx("e", <<X, Y>>), AndG(<<UnifyG(X, Z), UnifyG(Y, Z)>>)),
